@@ -2,9 +2,13 @@
 //! vmon: runtime-monitoring workers for the SimpleSL properties.
 //! usage: vmon <PROP> --tier quick|thorough --seed N --shard I --nshards N --out FILE [--budget S] [--replay FILE] [--opt k=v]
 //!        vmon merge-distinct FILE...
+mod ast;
+mod genp;
 mod oracle;
+mod prog;
 mod props;
 mod real;
+mod refeval;
 mod util;
 
 use std::collections::{BTreeMap, HashSet};
@@ -104,6 +108,45 @@ fn main() {
         }
         return;
     }
+    if args.get(1).map(String::as_str) == Some("show") {
+        // vmon show <PROP> <seed> <shard> <index> : print one generated program and all its outcomes
+        let prop = args.get(2).cloned().unwrap_or_default();
+        let n = |i: usize| args.get(i).and_then(|s| s.parse::<u64>().ok()).unwrap_or(0);
+        let spec = props::diff::spec_for(&prop).expect("unknown diff property");
+        let profile = &spec.profiles[(n(5) % spec.profiles.len() as u64) as usize];
+        real::on_big_stack({
+            let profile = profile.clone();
+            let (seed, shard, index) = (n(3), n(4), n(5));
+            move || {
+                let (body, _) = props::diff::gen_program(seed, shard, index, &profile);
+                for mode in [ast::Mode::Literal, ast::Mode::Hidden] {
+                    let text = prog::program_text(&body, mode);
+                    println!("--- {mode:?}\n{}", &text[ast::PRELUDE.len()..]);
+                    let r = prog::run_real(&text, props::diff::FUEL);
+                    match &r.outcome {
+                        real::Outcome::Value(v) => println!("=> value {}", oracle::canon(v)),
+                        real::Outcome::Panic(p) => println!("=> PANIC {:?} {} {}", p.kind, p.loc, p.msg),
+                        o => println!("=> {o:?}"),
+                    }
+                    println!("   log {:?} steps {}", r.log, r.steps);
+                    if let real::Outcome::Rejected(..) = r.outcome {
+                        let interp = simplesl::Interpreter::with_stdlib();
+                        if let Err(e) = simplesl::Code::parse(&interp, &text) {
+                            println!("   error: {e}");
+                        }
+                    }
+                }
+                let rr = prog::run_ref(&body, 400_000);
+                match &rr.outcome {
+                    prog::RefOutcome::Value(v) => println!("ref => value {}", refeval::canon_v(v)),
+                    prog::RefOutcome::Err(k) => println!("ref => error {}", k.name()),
+                    prog::RefOutcome::GiveUp(w) => println!("ref => gave up: {w}"),
+                }
+                println!("ref log {:?}", rr.log);
+            }
+        });
+        return;
+    }
     let cfg = parse_args();
     real::install_panic_hook();
     let cfg2 = cfg.clone();
@@ -124,6 +167,8 @@ fn main() {
 
 fn dispatch(cfg: &Cfg, rep: &mut Report) {
     match cfg.prop.as_str() {
+        "C01" => props::sound::run(cfg, rep, &props::sound::Mode2 { prop: "C01", soundness: true }),
+        "C02" => props::sound::run(cfg, rep, &props::sound::Mode2 { prop: "C02", soundness: false }),
         "C03" => props::c03::run(cfg, rep),
         "C08" => props::c08::run(cfg, rep),
         "C09" => props::c09::run(cfg, rep),
@@ -131,6 +176,10 @@ fn dispatch(cfg: &Cfg, rep: &mut Report) {
         "C15" => props::c15::run(cfg, rep),
         "C20" => props::c20::run(cfg, rep),
         other => {
+            if let Some(spec) = props::diff::spec_for(other) {
+                props::diff::run(cfg, rep, &spec);
+                return;
+            }
             eprintln!("unknown property {other}");
             std::process::exit(2);
         }
@@ -139,6 +188,8 @@ fn dispatch(cfg: &Cfg, rep: &mut Report) {
 
 fn dispatch_replay(cfg: &Cfg, kind: &str, payload: &str, rep: &mut Report) {
     match cfg.prop.as_str() {
+        "C01" => props::sound::replay(payload, rep, &props::sound::Mode2 { prop: "C01", soundness: true }),
+        "C02" => props::sound::replay(payload, rep, &props::sound::Mode2 { prop: "C02", soundness: false }),
         "C03" => props::c03::replay(kind, payload, rep),
         "C08" => props::c08::replay(payload, rep),
         "C09" => props::c09::replay(payload, rep),
@@ -146,6 +197,10 @@ fn dispatch_replay(cfg: &Cfg, kind: &str, payload: &str, rep: &mut Report) {
         "C15" => props::c15::replay(kind, payload, rep),
         "C20" => props::c20::replay(kind, payload, rep),
         other => {
+            if let Some(spec) = props::diff::spec_for(other) {
+                props::diff::replay(cfg, payload, rep, &spec);
+                return;
+            }
             eprintln!("unknown property {other}");
             std::process::exit(2);
         }
